@@ -77,6 +77,11 @@ CHECKS = {
    text='Complete enumeration of the fault classes of the statement at every applicable site of valid base decks: m=-1 on TR cards (plain, starred, unused, used by a surface) and in inline plain/starred TRCL and FILL; LAT cells without --lattice, with --lattice for another cell, with too few / too many / misplaced non-trivial ranges on the card and on the command line, FILL arrays one short and one long; every elementary mnemonic and every macrobody with one parameter too few and too many; unknown mnemonics; facet 0 and n+1 of every macrobody kind; IMP cards of unequal length; mixed-sign fractions at every position; malformed --lattice strings. A normally finished conversion, an empty message or a bare Python KeyError/IndexError/TypeError is a violation; the un-faulted base decks must convert.',
    note='Trusted: parameter counts per mnemonic (MCNP manual); the 5-entry torus accepted by the bundled MIP library is not counted as a fault. Two recorded known findings (surplus FILL array entry read as a transformation number).',
    tech='exhaustive fault x site enumeration against the real entry point'),
+
+ 'C14': dict(cat='model_checking', ref='4/C14',
+   text='Explicit-state breadth-first search over sequences of MCNP-insignificant rewrites (upper-casing, blanks and tabs, leading blanks, continuation by 5 blanks / tab / trailing ampersand, $ and c comments also inside continued cards, message block, number respellings including the Fortran forms, data-card shorthand versus expansion) applied one site at a time to four base decks covering every card type; states are deck texts de-duplicated on identity; in every state the parsed output (surfaces, volumes, compositions numerically, GEOMCOMP, boundary conditions) must equal the base deck's.',
+   note='Trusted: the rewrite menu is MCNP-equivalent (manual). Sites are capped at the first, middle and last token boundary of a card; depth 2 in the quick tier, depth 3 (time-capped, the completed depth is reported) in the thorough tier. CRLF line ends are not in the property and are not demanded.',
+   tech='explicit-state BFS over rewrite sequences with state de-duplication; differential comparison with the base deck'),
 }
 NA_REASON = 'check not built yet in this build round (planned, see DESIGN.md section 4); no claim is made'
 
